@@ -12,6 +12,7 @@ mod sc_proj;
 mod sc_zoc;
 mod sc_extra;
 mod refcmp;
+mod prime;
 
 use std::io::BufRead;
 use util::*;
@@ -31,6 +32,7 @@ fn main() {
   if args.pos.len() < 2 { eprintln!("usage: hpx record|replay <scenario> [--seed S] [--count N] [--in F] [--out F]"); std::process::exit(2); }
   silence_panics();
   let seed = args.u64("seed", 1);
+  prime::set_seed(seed);
   let mut out = Out::create(&args.get("out", "-"));
   match args.pos[0].as_str() {
     "record" => {
